@@ -126,8 +126,14 @@ impl<'a> SendBlocksProofProcess<'a> {
             // Check extra hash for blocks
             let is_v1 = self.message.count_extra_fields() >= 2;
             let extensions = if is_v1 {
-                let message_v1 =
-                    packed::SendBlocksProofV1Reader::new_unchecked(self.message.as_slice());
+                // The message was decoded in compatible mode, which does not verify the contents of
+                // the extra fields: verify them before they are read.
+                let message_v1 = match packed::SendBlocksProofV1Reader::from_compatible_slice(
+                    self.message.as_slice(),
+                ) {
+                    Ok(message_v1) => message_v1,
+                    Err(_) => return StatusCode::MalformedProtocolMessage.into(),
+                };
                 let uncle_hashes: Vec<_> = message_v1
                     .blocks_uncles_hash()
                     .iter()
